@@ -3,9 +3,9 @@ import os, itertools
 import vlib
 from props import pyph
 
-MODULE = 'GudhiVerif.Properties.C11'
+MODULE = 'GudhiVerif.Properties.C11b'
 THEOREMS = ['cert_unique', 'BridgeP.reduceAllP_cert', 'BridgeP.any_cert_agrees_with_referenceP', 'CnsProto.binom_mono', 'CnsProto.getMax_spec', 'CnsProto.encode_lt', 'CnsProto.decode_encode',
-            'ExpandProto.expand_words', 'ExpandProto.expand_values_clique']
+            'ExpandProto.expand_words', 'ExpandProto.expand_values_clique', 'C11b.lowerRow_eq', 'C11b.lower_layout', 'C11b.upperRow1_eq', 'C11b.upper_layout']
 PARTIAL = ['C11_engine_partial: the Ripser engine (implicit coboundary matrix, apparent / emergent pairs, clearing, union-find pass) is not modelled; the compared object is the specification of the property itself: '
            'the Rips flag filtration (proved to be the clique complex with maximal edge values) reduced by the reference reduction (proved to return the unique pairing) over Z_p',
            'C11_enclosing_partial: that the barcode does not change beyond the enclosing radius is not a Lean theorem; the model always uses the untruncated filtration, so the shortcut taken by ripser_auto is compared on every dense input without threshold']
